@@ -792,6 +792,8 @@ class VM:
                     if c.endswith(f2.name.split('::')[-2] + '::promoted[' + m.group(1) + ']') if '::promoted' in f2.name else False: pf = f2; break
             if pf is None: raise Unmodelled('promoted? ' + c)
             return self.run_fn(pf, [], fr.subst)
+        m = re.search(r'f64(?:::<impl f64>)?::(NAN|INFINITY|NEG_INFINITY|EPSILON|MAX|MIN|MIN_POSITIVE)$', c)
+        if m: return {'NAN': float('nan'), 'INFINITY': float('inf'), 'NEG_INFINITY': -float('inf'), 'EPSILON': 2.220446049250313e-16, 'MAX': 1.7976931348623157e308, 'MIN': -1.7976931348623157e308, 'MIN_POSITIVE': 2.2250738585072014e-308}[m.group(1)]
         if c.startswith(('std::iter::Empty', 'core::iter::Empty')): return It('empty')
         if c.startswith(('std::marker::PhantomData', 'PhantomData')): return Adt('PhantomData', 0, [])
         # unit-like enum variant or unit struct constant
